@@ -1,7 +1,7 @@
 # C18 — type-erased senders and functions behave like what they wrap (structural part; DESIGN.md §5 C18)
 import re
 from engine.core import AnalysisBroken, P, T, callee_of, callee_short, cond_atoms, loc_of, strip, block_path
-from engine.kinds import FactFlow, CountFlow, precedes_on_all_paths, always_followed_by
+from engine.kinds import FactFlow, CountFlow, precedes_on_all_paths, always_followed_by, eval_walk
 from .common import facts, lib, driver, witness
 
 EXPLANATION = (
@@ -96,6 +96,30 @@ def storage_rules(rep, D, cfg):
             rep.ok("C18.R1", fn, "destructor%s releases iff non-empty" % tag)
         else:
             rep.bad("C18.R1", fn, fn.loc, "dtor" + tag, "the storage destructor must release a held object (and only then)")
+    # copy assignment of the copyable storage: whatever the source holds (including nothing), a target that is not
+    # the source itself gives up the object it held - on every path that is not the self-assignment and on which
+    # *this is non-empty, release() (or the base's move assignment, which releases) is executed
+    cops = [f for f in D.find("^" + CS + "::operator=$") if not f.pattern and f.parent == -1 and f.raw.get("params")
+            and "const" in str(f.raw["params"][0].get("type", "")) and not str(f.raw["params"][0].get("type", "")).rstrip().endswith("&&")]
+    if not cops:
+        raise AnalysisBroken("copyable_sbo_storage::operator=(const&) not instantiated%s" % cfg)
+    for fn in cops:
+        gives_up = lambda e: e.get("k") == "call" and (callee_short(e) == "release" or callee_of(e) == MS + "::operator=") and \
+            P(e.get("recv")) in ("this", "*this", "")
+        bad_paths = []
+        npaths = 0
+        for other_empty in (True, False):
+            env = {"&other == this": False, "this == &other": False, "this->empty()": False, "other.empty()": other_empty}
+            for evs, end in eval_walk(fn, fn.entry, atom_env=env):
+                npaths += 1
+                if end in ("return", "exit") and not any(gives_up(e) for _, _, e in evs):
+                    bad_paths.append(other_empty)
+        if not bad_paths:
+            rep.ok("C18.R1", fn, "operator=(const&)%s: a non-empty target releases its object on every non-self path (%d paths, source empty or not)" % (tag, npaths), sites=npaths)
+        else:
+            rep.bad("C18.R1", fn, fn.loc, "copy-assign-op" + tag, "copy assignment leaves the previously held object in place when the source is %s: the target "
+                    "stays non-empty and still completes with its old sender instead of becoming a copy of the source"
+                    % " / ".join("empty" if x else "non-empty" for x in sorted(set(bad_paths))))
     for fn in [f for f in D.find("^" + CS + "::copy_assign$") if not f.pattern and f.parent == -1]:
         cl = [ev for _, _, ev in fn.all_events() if ev.get("k") == "call" and callee_short(ev) in ("clone", "clone_into")]
         if cl:
